@@ -467,6 +467,76 @@ func compositeFieldMap(body *ast.BlockStmt, typeName string) (map[string]string,
 		}
 		return false
 	})
+	// the same object built field by field: x := new(T) (or &T{}, or var x T) followed by x.F = v
+	objs := map[string]bool{}
+	isT := func(e ast.Expr) bool {
+		switch v := e.(type) {
+		case *ast.CallExpr:
+			if f, ok := v.Fun.(*ast.Ident); ok && f.Name == "new" && len(v.Args) == 1 {
+				if id, ok := v.Args[0].(*ast.Ident); ok && id.Name == typeName {
+					return true
+				}
+			}
+		case *ast.UnaryExpr:
+			if cl, ok := v.X.(*ast.CompositeLit); ok {
+				if id, ok := cl.Type.(*ast.Ident); ok && id.Name == typeName && len(cl.Elts) == 0 {
+					return true
+				}
+			}
+		case *ast.CompositeLit:
+			if id, ok := v.Type.(*ast.Ident); ok && id.Name == typeName && len(v.Elts) == 0 {
+				return true
+			}
+		}
+		return false
+	}
+	ast.Inspect(body, func(n ast.Node) bool {
+		switch x := n.(type) {
+		case *ast.AssignStmt:
+			if x.Tok == token.DEFINE && len(x.Lhs) == 1 && len(x.Rhs) == 1 && isT(x.Rhs[0]) {
+				if id, ok := x.Lhs[0].(*ast.Ident); ok {
+					objs[id.Name] = true
+					if !pos.IsValid() {
+						pos = x.Pos()
+					}
+				}
+			}
+		case *ast.ValueSpec:
+			if id, ok := x.Type.(*ast.Ident); ok && id.Name == typeName && len(x.Values) == 0 {
+				for _, nm := range x.Names {
+					objs[nm.Name] = true
+				}
+			}
+		}
+		return true
+	})
+	if len(objs) > 0 {
+		ast.Inspect(body, func(n ast.Node) bool {
+			as, ok := n.(*ast.AssignStmt)
+			if !ok || as.Tok != token.ASSIGN || len(as.Lhs) != 1 || len(as.Rhs) != 1 {
+				return true
+			}
+			sel, ok := as.Lhs[0].(*ast.SelectorExpr)
+			if !ok {
+				return true
+			}
+			base, ok := sel.X.(*ast.Ident)
+			if !ok || !objs[base.Name] {
+				return true
+			}
+			k := sel.Sel.Name
+			keys[k] = true
+			switch v := as.Rhs[0].(type) {
+			case *ast.Ident:
+				m[v.Name] = k
+			case *ast.SelectorExpr:
+				if b, ok := v.X.(*ast.Ident); ok {
+					multi[b.Name] = append(multi[b.Name], k)
+				}
+			}
+			return true
+		})
+	}
 	for v, ks := range multi {
 		sort.Strings(ks)
 		m[v] = "{" + strings.Join(ks, ",") + "}"
